@@ -86,6 +86,10 @@ def _verify_worker(args):
         if rep.extracted is not None:
             out.update(file=rep.extracted.relpath, line=rep.extracted.lineno,
                        sha256=rep.extracted.sha256, dropped=rep.extracted.dropped)
+            # abstracted statements that are no longer in the function's text
+            import ast as _ast
+            segs = [(rep.extracted.seg(n) or '') for n in _ast.walk(rep.extracted.node) if isinstance(n, _ast.stmt)]
+            out['abstract_missing'] = sorted(pfx for pfx in c.abstract if not any(sg.startswith(pfx) for sg in segs))
         if rep.undecided is None:
             for label, d in rep.named().items():
                 o = {'id': '%s:%s' % (cname, label), 'label': label, 'kind': d['kind'], 'crosscheck': d.get('crosscheck'),
